@@ -65,6 +65,10 @@ Fixpoint run_all (fs : list frame) (s : st) : list outcome * st :=
               end
   end.
 
+(** a chain of k nested calls (runaway recursion) *)
+Fixpoint chain (k : nat) : frame :=
+  match k with O => Call [] false | S k' => Call [chain k'] false end.
+
 (** nesting depth of calls, resetting nothing: what a history needs of the counter *)
 Fixpoint depth (f : frame) : nat :=
   match f with
